@@ -23,6 +23,7 @@ EXPLANATION = (
     "name; every create_* encoder passes the width and type of its signature and encodes by kind (zero-/sign-"
     "extension, left alignment with 32-N/8 zero bytes, dynamic (32, length, data)); widths > 256 are rejected; "
     "every symbol label contains uid() and a per-path counter. Values read back are not decided."
+    ' Also evaluated here: fork-copy / per-transaction copy completeness (C20 R20.1): block fields and prank records written by cheatcodes must not be shared with other paths or transactions.'
 )
 ASSUMPTIONS = ["Forge-std / SVM signatures (hash-verified against the repo's constants)", "dataclass default_factory creates a fresh object per instance"]
 
